@@ -748,3 +748,10 @@ V("c09-rw-sort-simplices-flip-on-negative-volume", "rewrite", ["C09", "C01"], P 
   "        if self._calculate_signed_volume() < 0:\n", "        signed_volume = self._calculate_signed_volume()\n        if signed_volume < 0:\n")
 V("c09-sort-simplices-flip-isclose-volume", "fault", "C09", P + "convex_polyhedron.py",
   "        if self._calculate_signed_volume() < 0:\n", "        if not np.isclose(self._calculate_signed_volume(), self._volume):\n", rule="SC-3")
+
+V("c14-rw-edge-length-indexed-backward", "rewrite", "C14", P + "convex_spheropolygon.py",
+  "        v12norm = np.linalg.norm(v12, axis=1)\n        v32norm = np.linalg.norm(v32, axis=1)\n",
+  "        v32norm = np.linalg.norm(v32, axis=1)\n        v12norm = v32norm[(np.arange(num_verts) - 1) % num_verts]\n")
+V("c14-edge-length-indexed-forward", "fault", "C14", P + "convex_spheropolygon.py",
+  "        v12norm = np.linalg.norm(v12, axis=1)\n        v32norm = np.linalg.norm(v32, axis=1)\n",
+  "        v32norm = np.linalg.norm(v32, axis=1)\n        v12norm = v32norm[(np.arange(num_verts) + 1) % num_verts]\n", rule="RING-1")
